@@ -307,12 +307,13 @@ func uuid(s string) [16]byte {
 	return u
 }
 
-// insertion order differs from sorted order; 7f.. / 80.. straddle the sign bit
+// insertion order differs from sorted order; 00.. / 80.. / f0.. straddle the sign bit
+// and the second and third differ only in the last byte (7f / ff).
 var uuidPool = [][16]byte{
 	uuid("f0e1d2c3-b4a5-9687-7869-5a4b3c2d1e0f"),
 	uuid("00112233-4455-6677-8899-aabbccddeeff"),
+	uuid("00112233-4455-6677-8899-aabbccddee7f"),
 	uuid("80000000-0000-0000-0000-000000000001"),
-	uuid("7fffffff-ffff-ffff-ffff-fffffffffffe"),
 }
 
 var foreignUUID = uuid("3e11fa47-71ca-11e1-9e33-c80aa9429562")
@@ -347,11 +348,18 @@ func wideConfigs() []*config {
 }
 
 func quickConfigs() []*config {
-	return append([]*config{window(1, 8), window(2, 6)}, wideConfigs()...)
+	return append([]*config{window(1, 8), window(2, 6), window(3, 4), window(4, 3)}, wideConfigs()...)
 }
 
 func thoroughExtra() []*config {
-	return []*config{window(3, 4), window(4, 3), window(1, 12), window(3, 5), window(2, 7), window(2, 8)}
+	// window-U2-W8: 65 536 states; its 4.3e9 ordered pairs would take most of the
+	// budget and add nothing over (1,8) and (2,7), so only its edges and
+	// membership questions are enumerated.
+	w28 := window(2, 8)
+	w28.Pairs = false
+	w44 := window(4, 4) // 65 536 states, same reason
+	w44.Pairs = false
+	return []*config{window(1, 12), window(3, 5), window(2, 7), w28, w44}
 }
 
 func allConfigs() []*config { return append(quickConfigs(), thoroughExtra()...) }
@@ -512,6 +520,15 @@ func (e *explorer) fail(f *failure, sc Scenario) {
 		}
 		return ""
 	})
+}
+
+// throttled counts an in-line failure of a class and tells whether enough of
+// them were already examined.
+func (e *explorer) throttled(class string) bool {
+	e.mu.Lock()
+	defer e.mu.Unlock()
+	e.perKey["#"+class]++
+	return e.perKey["#"+class] > 16
 }
 
 func (e *explorer) scenarioFor(origin byte, i int) Scenario {
@@ -675,7 +692,16 @@ func (e *explorer) explore(stop func() bool) (complete bool) {
 		return false
 	}
 	// transitions from every parsed state
-	e.parallel(N, func(i int) { e.expand(e.parsed[i], i, 'A', false, nil) })
+	// (each worker uses a private value parsed from the state's canonical text
+	// as the receiver, so that code under test that writes to its receiver
+	// cannot race with the other workers reading the stored tables)
+	e.parallel(N, func(i int) {
+		obj, perr := parseSet(e.texts[i])
+		if perr != "" {
+			return // reported when table A was built
+		}
+		e.expand(obj, i, 'A', false, nil)
+	})
 	if stop() {
 		return false
 	}
@@ -699,6 +725,9 @@ func (e *explorer) explore(stop func() bool) (complete bool) {
 				g := ref.GTID56{SID: u, GNO: p.n}
 				n++
 				if got := obj.ContainsGTID(lib(g)); got != want {
+					if e.throttled("containsgtid") {
+						continue
+					}
 					sc := e.scenarioFor(src, i)
 					e.fail(&failure{"containsgtid", fmt.Sprintf("%q.ContainsGTID(%s) = %v, membership is %v", e.texts[i], g.Text(), got, want)}, withProbe(sc, g))
 				}
@@ -733,6 +762,9 @@ func (e *explorer) explore(stop func() bool) (complete bool) {
 				b := other[j]
 				aSupB, bSupA := i&j == j, i&j == i
 				if a.Contains(b) != aSupB || b.Contains(a) != bSupA || a.Equal(b) != (i == j) || b.Equal(a) != (i == j) {
+					if e.throttled("pair") {
+						continue
+					}
 					sc := Scenario{Kind: "pair", InitKind: "parse", Init: e.texts[i], InitKindB: "parse", InitB: e.texts[j]}
 					if e.deriv[j] != nil {
 						sc.InitKindB, sc.InitB, sc.PathB = "literal", "", e.pathTo(j)
@@ -817,7 +849,7 @@ func run(r *chk.Run) {
 		r.Eval(e.transitions.Load() + e.evals.Load())
 		r.DistinctN(e.transitions.Load() + e.evals.Load())
 		if complete {
-			done = append(done, fmt.Sprintf("%s: %d states, %d AddGTID edges", c.Name, e.states.Load(), e.transitions.Load()))
+			done = append(done, fmt.Sprintf("%s: %d states, %d AddGTID edges, all pairs: %v", c.Name, e.states.Load(), e.transitions.Load(), c.Pairs))
 		} else {
 			r.SetExhaustive(false)
 			cutAt = append(cutAt, c.Name)
